@@ -96,7 +96,12 @@ func runOnce(job *Job, ch vs.Chooser, trace bool) (*vs.Result, *Outcome) {
 	switch job.Harness {
 	case "C15":
 		st, body := RunC15(*job.C15, func() bool { return cc.usedT > 0 })
-		res = vs.Run(vs.Config{Chooser: cc, Horizon: 4000, Trace: trace, StepHook: st.stepHook}, func() { out = body() })
+		vc := vs.Config{Chooser: cc, Horizon: 4000, Trace: trace, StepHook: st.stepHook}
+		if job.C15.Server {
+			vc.TimeLimit = 8 * time.Second // the server's 5 s ping-supervision ticker never stops; one tick is explored, the supervision time-out (2 x ping time-out without a ping) is not
+			vc.Horizon = 8000
+		}
+		res = vs.Run(vc, func() { out = body() })
 	case "C10conc":
 		out, res = runC10(job.C10, cc, trace)
 	case "C05mon":
